@@ -149,6 +149,9 @@ func (fv *FuncVerifier) lookupVar(obj types.Object, st *State, p token.Pos) Term
 	case *types.Nil:
 		return Term{"0", sortInt}
 	}
+	if v, ok := obj.(*types.Var); ok && fv.sortOf(v.Type()) == nil {
+		return Term{} // a variable of a type without a model (function value, channel): unmodelled value
+	}
 	reject("variable %s has no modelled value at %s", obj.Name(), fv.pos(p))
 	return Term{}
 }
@@ -408,6 +411,12 @@ func (fv *FuncVerifier) evalSelector(e *ast.SelectorExpr, st *State) Term {
 		}
 		f, ok := fv.u.getField(cur, s.field)
 		if !ok {
+			// a field whose type has no model at all (function values, channels): its value is
+			// "unmodelled" (usable only where an unmodelled value is, e.g. assigned to a variable
+			// of such a type or passed to an opaque call)
+			if ft := fv.typeOf(e); ft != nil && fv.sortOf(ft) == nil {
+				return Term{}
+			}
 			reject("read of unmodelled field %s at %s", s.field, fv.pos(e.Pos()))
 		}
 		cur = f
